@@ -10,7 +10,7 @@
    production -O3 build by comparing the final state of the same run;
 4. searcher (library only): measured convergence order over the option lattice (tools/c01_search.py).
 """
-import json, os, re, subprocess, sys
+import json, math, os, re, subprocess, sys
 from fractions import Fraction as F
 from concurrent.futures import ThreadPoolExecutor
 import vlib
@@ -57,6 +57,10 @@ def jobs_list(thorough):
     # round 2: modified-kick schemes, corrector2, DH/WHDS (three letters)
     for row in range(4):
         add("saba/0x%x/step" % (0x100 + row), ["saba", 0x100 + row, 0, 0, "step"], "saba_cm_word %d" % row, "wh")
+    for row in range(4):
+        add("saba/0x%x/step" % (0x200 + row), ["saba", 0x200 + row, 0, 0, "step"], "saba_cl_word_leading %d" % row, "wh_lazy")
+    add("whfast/lazy/c0/step", ["whfast", 3, 0, 0, "step"], "whfast_lazy_kernel_leading", "wh")
+    add("whfast/lazy/c7/step", ["whfast", 3, 7, 0, "step"], "of_scheme (corrector_word (corrector_calls 7 true)) ++ whfast_lazy_kernel_leading ++ of_scheme (corrector_word (corrector_calls 7 false))", "wh")
     for c in (0, 7):
         add("whfast/modifiedkick/c%d/step" % c, ["whfast", 1, c, 0, "step"], "whfast_mk_word %d" % c, "wh")
     add("whfast/modifiedkick/c7/corrector2/step", ["whfast", 1, 7, 100, "step"], "with_correctors 7 mk_kernel", "wh")
@@ -64,6 +68,10 @@ def jobs_list(thorough):
     for coord, nm in ((1, "dh"), (2, "whds")):
         add("whfast/default/c0/%s/step" % nm, ["whfast", 0, 0, coord, "step"], "whfast_dh_word", "wh3", dts=both)
         add("whfast/default/c0/%s/unsync" % nm, ["whfast", 0, 0, coord, "unsync"], "whfast_dh_word_unsync", "wh3")
+    add("mercurius/step", ["mercurius", 0, 0, 0, "step"], "hybrid_word", "wh3h", dts=both)
+    add("mercurius/unsync", ["mercurius", 0, 0, 0, "unsync"], "hybrid_word_unsync", "wh3h")
+    for pm in (0, 1, 2):
+        add("trace/peri_mode=%d/step" % pm, ["trace", pm, 0, 0, "step"], "hybrid_word", "wh3h", dts=both if pm == 0 else (DT,))
     for code, nm in EOS_PLAIN.items():
         add("eos/phi0=%s/step" % nm, ["eos", code, 0, 2, "step"], "eos_outer_%s ++ eos_sync_%s" % (nm, nm), "eos_outer",
             dts=both if thorough or code in (1, 6) else (DT,))
@@ -137,6 +145,16 @@ def canon(ops, kind, extra, dt):
                 if last_k is None or a[0] != last_k:
                     return None, "com step %r does not follow a kepler step with the same argument" % a
             else:
+                return None, "unexpected operator %s" % op
+        return out, ""
+    if kind == "wh3h":      # MERCURIUS / TRACE step functions: interaction = 1, jump = 2, kepler = 0 (com step: argument checked)
+        for op, a in ops:
+            if op in ("HI", "HJ", "HK"):
+                out.append(({"HK": 0, "HI": 1, "HJ": 2}[op], F(a[0]) / fdt, F(0)))
+            elif op == "HC":
+                if abs(F(a[0]) / fdt - 1) > F(1, 10 ** 12):
+                    return None, "com step with argument %r" % a
+            elif op not in ("K", "I", "C", "J"):      # the Kepler step may use WHFast's solver internally
                 return None, "unexpected operator %s" % op
         return out, ""
     if kind == "janus":
@@ -213,7 +231,7 @@ def model_words(exprs):
                 # modified kick exp(y B + v [B,[A,B]]): the library kicks with argument y*dt (the jerk is added to the acceleration
                 # beforehand); a pure commutator kick (y = 0, SABA CM) is interaction_step(cc*dt) on dt^2*jerk with jerk = C/2
                 y, vc = int(m.group(8)), int(m.group(9))
-                w.append((True, F(y, SC) if y != 0 else F(2 * vc, SC ** 3), F(0)))
+                w.append((True, F(y, SC), F(0)) if y != 0 else ("C", F(2 * vc, SC ** 3), F(0)))
         if not w and "[]" not in b:
             return None, "cannot parse a model word: " + b[:200]
         words.append(w)
@@ -261,10 +279,13 @@ def correspondence(ctx, libdir):
         ctx.case(key=("trace", label), sample={"run": label, "first_operators": [(o, a) for o, a in (ops or [])[:4]]} if len(ctx.samples) < 2 else None)
         if ops is None:
             bad.append((label, "no trace: " + terr)); continue
-        traced, why = canon(ops, kind, extra, dt)
+        traced, why = canon(ops, "wh" if kind == "wh_lazy" else kind, extra, dt)
         if traced is None:
             bad.append((label, why)); continue
         model = mw[expr]
+        if kind == "wh_lazy":       # the lazy corrector updates the velocities in line: no interaction_step call to trace
+            model = [e for e in model if e[0] != "C"]
+        model = [((True,) + tuple(e[1:])) if e[0] == "C" else e for e in model]
         if kind == "eos_inner":
             whys = [same_word(seg, model) for seg in traced]
             why = next((w for w in whys if w), "") if traced else "no drift_shell0 call traced"
@@ -423,6 +444,166 @@ def ode_loop_correspondence(ctx):
     ctx.extra["ode_loop_steps_compared"] = len(cases)
 
 
+def _lines(path, needles):
+    """1-based line numbers of the given (needle, occurrence) pairs in a source file; None if not found exactly."""
+    src = open(path).read().splitlines()
+    out = []
+    for needle, occ, total in needles:
+        hits = [i + 1 for i, l in enumerate(src) if needle in l]
+        if len(hits) != total:
+            return None
+        out.append(hits[occ])
+    return out
+
+
+def _gdb_run(exe, script, argv, prefixes):
+    for attempt in (0, 1):
+        r = subprocess.run(["timeout", "300", "gdb", "-batch", "-nx", "-x", script, "--args", exe] + argv, capture_output=True, text=True)
+        rows = [l.split() for l in r.stdout.splitlines() if l.split() and l.split()[0] in prefixes]
+        if rows and "STATE" in r.stderr:
+            return rows
+    return None
+
+
+def controller_correspondence(ctx):
+    """bit-exact: the IAS15 step-size controller (error estimate -> candidate -> clamp / reject / growth limit) and the BS
+    optimal-step factor and accept/reject decision, coq/C01/StepCtl.v at binary64 vs values recorded from the running library."""
+    isrc = os.path.join(vlib.REPO, "src", "integrator_ias15.c"); bsrc = os.path.join(vlib.REPO, "src", "integrator_bs.c")
+    il = _lines(isrc, [("if  (isnormal(integrator_error)){", 0, 1), ("if (isnormal(min_timescale2)){", 0, 1),
+                       ("if (fabs(dt_new)<r->ri_ias15.min_dt) dt_new = copysign(r->ri_ias15.min_dt,dt_new);", 0, 1),
+                       ("r->dt = dt_new;", 0, 2), ("r->dt = dt_new;", 1, 2)])
+    bl = _lines(bsrc, [("fac = MAX(power / stepControl4, MIN(1. / power, fac));", 0, 1), ("ri_bs->cost_per_time_unit[k] = ri_bs->cost_per_step[k] / ri_bs->optimal_step[k];", 0, 1),
+                       ("switch (k - ri_bs->target_iter) {", 0, 1), ("if (! reject) {", 0, 1)])
+    consts = open(bsrc).read()
+    ok_consts = all(re.search(p_, consts) for p_ in (r"stepControl4\s*=\s*4\.0;", r"define MAX\(a, b\) \(\(a\) > \(b\) \? \(a\) : \(b\)\)", r"define MIN\(a, b\) \(\(a\) < \(b\) \? \(a\) : \(b\)\)")) \
+        and re.search(r"static const double safety_factor\s*=\s*0\.25;", open(isrc).read())
+    if il is None or bl is None or not ok_consts:
+        ctx.obligation("correspondence:C01 step-size controllers located in the source", False, "ias15 lines %s, bs lines %s, constants %s" % (il, bl, bool(ok_consts)))
+        return
+    try:
+        dbg = vlib.build_lib("default", extra_flags=["-O0", "-g", "-fno-inline"], tag="c01dbg")
+        exe = build_driver(dbg, "dbg")
+    except RuntimeError as e:
+        ctx.obligation("correspondence:C01 debug build of the current tree (controllers)", False, str(e)[-1000:])
+        return
+    d = os.path.join(vlib.BUILD, "c01drv")
+    gi = os.path.join(d, "ias15ctl_%d.gdb" % os.getpid()); gb = os.path.join(d, "bsctl_%d.gdb" % os.getpid())
+    head = "set pagination off\nset confirm off\nset breakpoint pending on\n"
+    def bp(f, line, fmt, args):
+        return "break %s:%d\ncommands\nsilent\nprintf \"%s\\n\", %s\ncontinue\nend\n" % (f, line, fmt, args)
+    open(gi, "w").write(head + bp("integrator_ias15.c", il[0], "IE %.17g %.17g %.17g", "integrator_error, r->ri_ias15.epsilon, dt_done")
+                        + bp("integrator_ias15.c", il[1], "IT %.17g %.17g %.17g", "min_timescale2, r->ri_ias15.epsilon, dt_done")
+                        + bp("integrator_ias15.c", il[2], "IR %.17g %.17g", "dt_new, r->ri_ias15.min_dt")
+                        + bp("integrator_ias15.c", il[3], "IJ %.17g", "dt_new") + bp("integrator_ias15.c", il[4], "IA %.17g", "dt_new") + "run\nquit\n")
+    open(gb, "w").write(head + bp("integrator_bs.c", bl[0], "BF %.17g %.17g %.17g %d %.17g", "fac, power, error, k, dt")
+                        + bp("integrator_bs.c", bl[1], "BO %.17g", "ri_bs->optimal_step[k]")
+                        + bp("integrator_bs.c", bl[2], "BS %d %d %.17g %d %d", "k, ri_bs->target_iter, error, ri_bs->previous_rejected, ri_bs->first_or_last_step")
+                        + bp("integrator_bs.c", bl[3], "BE %d %d", "reject, k") + "run\nquit\n")
+    iruns = [(m, e, mn, dt) for m in (0, 1, 2, 3) for e in (9, 6) for mn, dt in (("step", 1.5), ("unsync", -1.5), ("step", -1e-4))]   # large first step: rejections; tiny first step: growth limit
+    bruns = [(e, dt) for e in (5, 8, 11) for dt in (1.0, -1.0)]
+    nsteps = ctx.scale(25, 120)
+    with ThreadPoolExecutor(max_workers=vlib.JOBS) as ex:
+        it = list(ex.map(lambda a: _gdb_run(exe, gi, ["ctl:ias15", str(a[0]), str(a[1]), str(nsteps), a[2], repr(a[3])], ("IE", "IT", "IR", "IJ", "IA")), iruns))
+        bt = list(ex.map(lambda a: _gdb_run(exe, gb, ["ctl:bs", "0", str(a[0]), str(nsteps), "step", repr(a[1])], ("BF", "BO", "BS", "BE")), bruns))
+    for f in (gi, gb):
+        try: os.remove(f)
+        except OSError: pass
+    H = lambda x: vlib.fhex(float(x))
+    cases, labels, bad, nrej = [], [], [], 0
+    for a, rows in zip(iruns, it):
+        lab = "ias15 mode=%d eps=1e-%d min_dt=%s dt0=%g" % (a[0], a[1], "0.02" if a[2] == "unsync" else "0", a[3])
+        if rows is None:
+            bad.append((lab, "no trace")); continue
+        try:
+            k = 0
+            while k + 2 <= len(rows) - 1:
+                e, rr, fin = rows[k], rows[k + 1], rows[k + 2]
+                if e[0] not in ("IE", "IT") or rr[0] != "IR" or fin[0] not in ("IJ", "IA"):
+                    raise ValueError("unexpected row order %s %s %s" % (e[0], rr[0], fin[0]))
+                est, eps, dtd = e[1], e[2], e[3]
+                fn = "ias15F01" if e[0] == "IE" else "ias15F23"
+                acc = fin[0] == "IA"; nrej += (not acc)
+                cases.append(("(%s %s %s %s %s)" % (fn, H(eps), H(est), H(dtd), H(rr[2])), [float(rr[1]), 1.0 if acc else 0.0, float(fin[1])]))
+                labels.append(lab)
+                ctx.case(key=("ias15ctl", a[0], a[1], a[2], acc, float(fin[1]) > float(dtd)), sample={"ias15_controller": lab, "estimate": est, "dt_done": dtd, "accepted": acc, "dt_next": fin[1]} if len(cases) == 1 else None)
+                k += 3
+        except (ValueError, IndexError) as ex_:
+            bad.append((lab, "unparsable trace %r" % (ex_,)))
+    n_ias = len(cases)
+    seq = [4 * k + 2 for k in range(9)]
+    mm = re.search(r"Definition bs_constants : list \(Z \* Z\) := \[(.*?)\]\.", open(os.path.join(vlib.COQ, "Gen", "Schemes.v")).read())
+    bsc = [int(a_) / int(b_) for a_, b_ in re.findall(r"\((-?\d+), (\d+)\)", mm.group(1))] if mm else []
+    if len(bsc) != 7:
+        ctx.obligation("correspondence:C01 BS constants regenerated", False, "bs_constants not found in Gen/Schemes.v")
+        return
+    nbrej = 0
+    for a, rows in zip(bruns, bt):
+        lab = "bs eps=1e-%d dt0=%g" % a
+        if rows is None:
+            bad.append((lab, "no trace")); continue
+        try:
+            pend_s = []
+            k = 0
+            while k < len(rows):
+                rw = rows[k]
+                if rw[0] == "BF":
+                    if k + 1 >= len(rows) or rows[k + 1][0] != "BO":
+                        raise ValueError("BF without BO")
+                    # the two pow() results against the regenerated constants (same libm through Python's math.pow)
+                    ex_ = 1.0 / (2 * int(rw[4]) + 1)
+                    f0 = bsc[1] / math.pow(float(rw[3]) / bsc[0], ex_); pw = math.pow(bsc[2], ex_)
+                    if abs(f0 - float(rw[1])) > 1e-12 * abs(f0) or abs(pw - float(rw[2])) > 1e-12 * pw:
+                        bad.append((lab, "fac0/power %s %s differ from stepControl formula %r %r (k=%s, error=%s)" % (rw[1], rw[2], f0, pw, rw[4], rw[3])))
+                    cases.append(("(bsF_opt 4 %s %s %s)" % (H(rw[1]), H(rw[2]), H(rw[5])), [float(rows[k + 1][1])])); labels.append(lab)
+                    ctx.case(key=("bsfac", a[0], int(rw[4]), float(rw[3]) > 1.0))
+                    k += 2
+                elif rw[0] == "BS":
+                    pend_s.append(rw); k += 1
+                elif rw[0] == "BE":
+                    rej, kk = int(rw[1]), int(rw[2])
+                    for j, srow in enumerate(pend_s):
+                        ks, tg, err, pr, fl = int(srow[1]), int(srow[2]), float(srow[3]), int(srow[4]), int(srow[5])
+                        dd = ks - tg
+                        if dd == -1:
+                            rt = (float(seq[tg]) * seq[tg + 1]) / (seq[0] * seq[0])
+                        elif dd == 0:
+                            rt = float(seq[ks + 1]) / seq[0]
+                        else:
+                            rt = 0.0
+                        last = j == len(pend_s) - 1
+                        if last and ks != kk:
+                            continue        # the loop was left through the stability / 1e25 path after this column
+                        exp_ = [0.0, float(rej)] if last else [1.0, 0.0]
+                        cases.append(("(bsF_dec (%d) %s %s %s %s %s)" % (dd, H(err), H(rt * rt), "true" if tg > 1 else "false", "true" if pr else "false", "true" if fl else "false"), exp_))
+                        labels.append(lab)
+                        ctx.case(key=("bsdec", a[0], dd, err > 1.0, bool(pr), bool(fl), tuple(exp_)))
+                    nbrej += rej
+                    pend_s = []; k += 1
+                else:
+                    k += 1
+        except (ValueError, IndexError) as ex_:
+            bad.append((lab, "unparsable trace %r" % (ex_,)))
+    jobs = []
+    chunk = 150
+    for c0 in range(0, len(cases), chunk):
+        body = ("From Coq Require Import List ZArith Bool PrimFloat.\nFrom RV Require Import Common.FloatNum C01.StepCtlRun.\n"
+                "Import ListNotations.\nOpen Scope float_scope.\nDefinition cases : list (list float * list float) := [\n")
+        body += ";\n".join("(%s, %s)" % (t, vlib.flist(e)) for t, e in cases[c0:c0 + chunk])
+        body += "].\nEval vm_compute in (bad_cases cases).\n"
+        jobs.append(("c01_ctl_%d" % (c0 // chunk), body))
+    for (name, ok, out), c0 in zip(vlib.coq_eval_many(jobs), range(0, len(cases), chunk)):
+        b = vlib.parse_coq_list_nat(out) if ok else None
+        if b is None:
+            bad.append((name, out[-600:]))
+        else:
+            bad += [(labels[c0 + x], "model differs from the library: %s expected %s" % (cases[c0 + x][0][:120], cases[c0 + x][1])) for x in b]
+    if not bad:
+        ctx.traces += len(cases)
+    ctx.obligation("correspondence:C01 step-size controllers model(binary64) == library, bit-for-bit: %d IAS15 decisions (%d rejections), %d BS factor/decision records (%d rejections)"
+                   % (n_ias, nrej, len(cases) - n_ias, nbrej), not bad and n_ias > 50 and nrej > 0 and len(cases) - n_ias > 50, "; ".join("%s: %s" % b_ for b_ in bad[:5]) or "too few records")
+    ctx.extra["controller_records"] = {"ias15": n_ias, "ias15_rejections": nrej, "bs": len(cases) - n_ias, "bs_rejections": nbrej}
+
+
 def search(ctx, libdir, only=None):
     args = [ctx.seed, ctx.tier] + ([only] if only else [])
     r = vlib.run_py(libdir, os.path.join(HERE, "c01_search.py"), args, timeout=3000)
@@ -460,7 +641,7 @@ def run(ctx):
     # (about 5 CPU-minutes inside the VM) it does not finish within vlib's 40 minute limit (measured: > 30 min), so the generic
     # coqchk of RV.C01.Props is switched off and replaced by a coqchk of the modules that contain the non-computational proofs.
     os.environ["VERIF_COQCHK"] = "0"
-    proved = ctx.prove("C01", extra_targets=["C01/JerkRun.vo", "C01/OdeLoopRun.vo"], timeout=1200)
+    proved = ctx.prove("C01", extra_targets=["C01/JerkRun.vo", "C01/OdeLoopRun.vo", "C01/StepCtlRun.vo"], timeout=1200)
     if ctx.thorough and proved:
         mods = ["RV.C01.JerkProofs", "RV.C01.JerkDeriv", "RV.C01.OdeLoopProofs"]
         r = subprocess.run(["timeout", "1200", "coqchk", "-silent", "-o", "-Q", ".", "RV"] + sum([["-norec", m] for m in mods], []),
@@ -473,6 +654,7 @@ def run(ctx):
         correspondence(ctx, libdir)
     jerk_correspondence(ctx, libdir)
     ode_loop_correspondence(ctx)
+    controller_correspondence(ctx)
     search(ctx, libdir)
     ctx.rule = ("proof: finite, exhaustive over the schemes listed in coq/C01/Props.v. correspondence: one gdb-traced run per "
                 "(integrator, type/kernel/corrector/phi0/phi1/n, step | step,step,synchronize, sign of dt); distinct by label. searcher: one "
